@@ -25,13 +25,39 @@ type ChunkReader struct {
 	Data        string
 	Cuts        []int // ascending, 0 < cut < len(Data)
 	EOFWithLast bool
-	pos, ci     int
-	Pulled      int
+	// EndErr, if set, is what the reader returns instead of io.EOF (with the last bytes if EOFWithLast)
+	EndErr  error
+	pos, ci int
+	Pulled  int
+}
+
+// the two ways a stream can end badly: a read error of its own kind, and one that wraps io.EOF (what a
+// transport reports when the peer closed the connection in the middle of the body)
+var (
+	ErrPlainRead = errors.New("scripted read error")
+	ErrWrapsEOF  = fmt.Errorf("connection closed by peer: %w", io.EOF)
+)
+
+func endErrOf(kind string) error {
+	switch kind {
+	case "plain":
+		return ErrPlainRead
+	case "wraps-eof":
+		return ErrWrapsEOF
+	}
+	return nil
+}
+
+func (r *ChunkReader) end() error {
+	if r.EndErr != nil {
+		return r.EndErr
+	}
+	return io.EOF
 }
 
 func (r *ChunkReader) Read(p []byte) (int, error) {
 	if r.pos >= len(r.Data) {
-		return 0, io.EOF
+		return 0, r.end()
 	}
 	end := len(r.Data)
 	if r.ci < len(r.Cuts) {
@@ -44,7 +70,7 @@ func (r *ChunkReader) Read(p []byte) (int, error) {
 		r.ci++
 	}
 	if r.pos >= len(r.Data) && r.EOFWithLast {
-		return n, io.EOF
+		return n, r.end()
 	}
 	return n, nil
 }
@@ -56,10 +82,14 @@ type Case struct {
 	StopAfter   int    `json:"stop_after"` // Read: yield returns false after this many events (-1: never)
 	Conn        bool   `json:"connection"`
 	MaxSize     int    `json:"max_event_size,omitempty"`
+	// EndErr: "" the stream ends cleanly; "plain" / "wraps-eof": the reader fails after the last byte with an
+	// error of its own / with an error that wraps io.EOF. A pending event is then NOT dispatched and the
+	// error is reported as itself.
+	EndErr string `json:"end_error,omitempty"`
 }
 
 func (c Case) String() string {
-	return fmt.Sprintf("stream=%q cuts=%v eofWithLast=%v stopAfter=%d connection=%v", c.Stream, c.Cuts, c.EOFWithLast, c.StopAfter, c.Conn)
+	return fmt.Sprintf("stream=%q cuts=%v eofWithLast=%v stopAfter=%d connection=%v endError=%q", c.Stream, c.Cuts, c.EOFWithLast, c.StopAfter, c.Conn, c.EndErr)
 }
 
 type rt struct{ body io.Reader }
@@ -106,7 +136,7 @@ func RunWith(c Case, r io.Reader, ownBuf bool) ([]sse.Event, error) {
 
 // RunImpl executes the case on the real code.
 func RunImpl(c Case) (events []sse.Event, err error, afterErr bool) {
-	r := &ChunkReader{Data: c.Stream, Cuts: c.Cuts, EOFWithLast: c.EOFWithLast}
+	r := &ChunkReader{Data: c.Stream, Cuts: c.Cuts, EOFWithLast: c.EOFWithLast, EndErr: endErrOf(c.EndErr)}
 	if c.Conn {
 		cl := sse.Client{HTTPClient: &http.Client{Transport: rt{r}}, ResponseValidator: sse.NoopValidator, Backoff: sse.Backoff{MaxRetries: -1}}
 		conn := cl.NewConnection(baseReq)
@@ -147,7 +177,7 @@ func Judge(c Case) (v string) {
 			v = viol("the code under test panicked", c, "panic: %v", r)
 		}
 	}()
-	want := ref.Interpret(c.Stream, ref.Mode{RetryDispatches: c.Conn})
+	want := ref.Interpret(c.Stream, ref.Mode{RetryDispatches: c.Conn, NoFlushAtEnd: c.EndErr != ""})
 	got, err, afterErr := RunImpl(c)
 	entry := "Read"
 	if c.Conn {
@@ -173,6 +203,13 @@ func Judge(c Case) (v string) {
 	if stopped {
 		if err != nil {
 			return viol(entry+": error after an early stop", c, "iteration was stopped after %d events but an error %v was yielded", c.StopAfter, err)
+		}
+		return ""
+	}
+	if c.EndErr != "" {
+		// not a clean end: the reader's error itself, whatever was pending
+		if e := endErrOf(c.EndErr); (!c.Conn && err != e) || (c.Conn && !errors.Is(err, e)) || errors.Is(err, sse.ErrUnexpectedEOF) {
+			return viol(entry+": a read error at the end of the stream is not reported as itself", c, "the reader failed with %q but the error reported is %v", e, err)
 		}
 		return ""
 	}
@@ -225,7 +262,7 @@ func bomAfterBlank(s string) bool {
 
 var Tokens = []string{"\n", "\r", "data", "id", "event", "retry", ":", " ", "x", "1", "+", "\x00", "\xEF\xBB\xBF", "\xff"}
 
-var Lines = []string{"", "data:x", "data: x", "data", "id:a", "id:", "id:\x00", "event:t", "retry:1", ":c", "foo:1", "\xEF\xBB\xBFdata:x", "retry:+1", "retry:1x", "retry: -0", "data:  x", "id:  a "}
+var Lines = []string{"", "data:x", "data: x", "data", "id:a", "id:", "id:\x00", "event:t", "retry:1", ":c", "foo:1", "\xEF\xBB\xBFdata:x", "retry:+1", "retry:1x", "retry: -0", "data:  x", "id:  a ", "retry:0", "retry: 00", "retry:9999999999999"}
 var Terms = []string{"\n", "\r", "\r\n"}
 
 // segmentations calls f with every cut set in the family for a string of n bytes.
@@ -313,6 +350,13 @@ func (k *collector) checkStream(s string, allBelow, pairBelow int) {
 		if k.connAll || len(cuts) <= 1 || len(cuts) == len(s)-1 {
 			// quick tier: the Connection entry point (same parser underneath) gets whole / byte-at-a-time / single cuts
 			k.judge(Case{Stream: s, Cuts: cuts, EOFWithLast: eofWithLast, StopAfter: -1, Conn: true}, nt)
+		}
+		if len(cuts) == 0 || len(cuts) == len(s)-1 || (len(cuts) == 1 && cuts[0] == len(s)-1) {
+			// the same segmentation (whole, byte at a time, last byte on its own) ending in a read error instead of a clean end
+			for _, ee := range []string{"plain", "wraps-eof"} {
+				k.judge(Case{Stream: s, Cuts: cuts, EOFWithLast: eofWithLast, StopAfter: -1, EndErr: ee}, true)
+				k.judge(Case{Stream: s, Cuts: cuts, EOFWithLast: eofWithLast, StopAfter: -1, Conn: true, EndErr: ee}, true)
+			}
 		}
 		if len(cuts) == 0 || len(cuts) == len(s)-1 {
 			for p := 1; p <= len(want.Events); p++ {
